@@ -267,7 +267,6 @@ impl TerminalRenderer {
     pub fn frame<T: Terminal + ?Sized>(&mut self, term: &mut T) -> Result<(), Error> {
         // clear hoisted locals
         self.images.clear();
-        self.marks.fill(CellMark::Empty);
 
         // First pass
         //
@@ -422,9 +421,13 @@ impl TerminalRenderer {
         }
 
         // Flip and clear buffers
+        //
+        // Marks are reset only here, as marks set by `clear` and `new` must
+        // be visible to this frame to force full repaint.
         self.frame_count += 1;
         std::mem::swap(&mut self.front, &mut self.back);
         self.front.clear();
+        self.marks.fill(CellMark::Empty);
 
         Ok(())
     }
